@@ -71,6 +71,33 @@ func (m *Machine) fpIsNaN(x *Term) *Term {
 	return tt.BAnd(tt.Eq(exp, tt.Const(8, 0xff)), tt.BNot(tt.Eq(man, tt.Const(23, 0))))
 }
 
+// fpRound models math.Trunc / Floor / Ceil (mode RTZ / RTN / RTP) and math.Sqrt (mode "sqrt") on a
+// float64: a fresh result variable pinned by a side constraint; a NaN operand comes back quieted.
+func (m *Machine) fpRound(mode string, x *Term) *Term {
+	tt := m.tt
+	if x.IsConst() {
+		f := math.Float64frombits(x.K)
+		switch mode {
+		case "RTZ":
+			f = math.Trunc(f)
+		case "RTN":
+			f = math.Floor(f)
+		case "RTP":
+			f = math.Ceil(f)
+		case "sqrt":
+			f = math.Sqrt(f)
+		}
+		return tt.Const(64, math.Float64bits(f))
+	}
+	r := tt.Var(64, "fp"+mode)
+	tt.Side = append(tt.Side, tt.mk(OpFP, 0, r, x, nil, 0, "isunary:"+mode))
+	xn, rn := m.fpIsNaN(x), m.fpIsNaN(r)
+	// NaN in -> the operand quieted; NaN out of a clean operand (sqrt of a negative) -> default NaN
+	tt.Side = append(tt.Side, tt.BOr(tt.BNot(xn), tt.Eq(r, tt.Bin(OpOr, x, tt.Const(64, 0x0008000000000000)))))
+	tt.Side = append(tt.Side, tt.BOr(tt.BOr(xn, tt.BNot(rn)), tt.Eq(r, tt.Const(64, 0xFFF8000000000000))))
+	return r
+}
+
 // fpArith computes x op y for floats of width w, introducing a fresh result variable pinned by
 // a side constraint (NaN results are pinned to the amd64 default NaN).
 func (m *Machine) fpArith(op string, x, y *Term) *Term {
